@@ -170,14 +170,31 @@ class PathCtx:
             if (i.op == "and") == truth:
                 self.learn(i.ops[0], truth)
                 self.learn(i.ops[1], truth)
+            else:
+                # disjunctive information: if one side is already decided the other way, the other side carries it
+                a, b = self.cond(i.ops[0]), self.cond(i.ops[1])
+                if a is not None and a != truth:
+                    self.learn(i.ops[1], truth)
+                elif b is not None and b != truth:
+                    self.learn(i.ops[0], truth)
         elif i.op == "select" and i.d.get("w") == 1:
             c, x, y = i.ops
-            if y[0] == "c" and y[1] == 0 and truth:
-                self.learn(c, True)
-                self.learn(x, True)
-            elif x[0] == "c" and x[1] == 1 and not truth:
-                self.learn(c, False)
-                self.learn(y, False)
+            if y[0] == "c" and y[1] == 0:          # c && x
+                if truth:
+                    self.learn(c, True)
+                    self.learn(x, True)
+                elif self.cond(c) is True:
+                    self.learn(x, False)
+                elif self.cond(x) is True:
+                    self.learn(c, False)
+            elif x[0] == "c" and x[1] == 1:        # c || y
+                if not truth:
+                    self.learn(c, False)
+                    self.learn(y, False)
+                elif self.cond(c) is False:
+                    self.learn(y, True)
+                elif self.cond(y) is False:
+                    self.learn(c, True)
 
     def enter(self, frm, to):
         """take CFG edge frm->to (block objects); returns False if the edge contradicts known facts"""
